@@ -9,5 +9,6 @@ CONSTANTS
   Offs <- OffsT
   Needles <- NeedlesT
   Fns <- FnsAll
+  Spell <- SpellT
 INVARIANT Emit
 CHECK_DEADLOCK FALSE
